@@ -778,6 +778,9 @@ def run_suite(pid, suite, rng, tier, profiles, workdir, changed):
                 violations.append(mk_violation(pid, c, f, prof))
             if len(samples) < 6 and (len(c.ops) <= 12 or evaluations % 37 == 1):
                 samples.append(dict(case=c.id, elem=c.elem, ops=[C_line(o) for o in c.ops][:10], observed=[x[:200] for x in (hl or [''])[:10]]))
+        if suite.get('post'):
+            for (c, f) in suite['post'](cases, hres):
+                violations.append(mk_violation(pid, c, f, prof))
     errs = sum(1 for v in violations)
     return dict(evaluations=evaluations, distinct_nontrivial=len(nontrivial_keys), samples=samples, rule=suite.get('rule', ''),
                 violations=dedup(violations), notes=[f'source fingerprint changed: {changed}'],
@@ -884,3 +887,772 @@ def replay(path):
     for f in findings:
         print('FINDING', f)
     return 1 if findings else 0
+
+
+# =============================================================================================
+# second batch of suites: C06 C07 C11 C12 C15 C16 C19 C20
+def obs_of(line):
+    return line.split(' ;; ')[0]
+
+
+def sim_deque(items, script, show=lambda x: x):
+    """expected observation of a next/next_back/len script on a sequence"""
+    items = list(items)
+    out = []
+    for w in script:
+        if w == 0:
+            out.append(f'Some({show(items.pop(0))})' if items else 'None')
+        elif w == 1:
+            out.append(f'Some({show(items.pop())})' if items else 'None')
+        else:
+            out.append(str(len(items)))
+    return '[' + ','.join(out) + ']'
+
+
+def sim_nested(vectors, script):
+    outer = list(vectors)
+    inners, out = [], []
+    for k in range(0, len(script) - 1, 2):
+        who, what = script[k], script[k + 1]
+        if who < 0:
+            if what == 2:
+                out.append(str(len(outer)))
+            elif outer:
+                v = outer.pop(0) if what == 0 else outer.pop()
+                out.append(f'Some({len(inners)})')
+                inners.append(list(v))
+            else:
+                out.append('None')
+        else:
+            if who >= len(inners):
+                out.append('INVALID')
+                break
+            v = inners[who]
+            if what == 2:
+                out.append(str(len(v)))
+            elif v:
+                out.append(f'Some({v.pop(0) if what == 0 else v.pop()})')
+            else:
+                out.append('None')
+    return '[' + ','.join(out) + ']'
+
+
+def gen_C06(rng, tier, changed):
+    cases = []
+    shapes = [(r, c) for r in range(0, 5) for c in range(0, 5)] + [(0, 7), (7, 0), (1, 9), (9, 1)]
+    for (r, c) in shapes:
+        for order in (0, 1):
+            sh = Shadow()
+            ops = build(sh, 0, r, c, order, how='rowreshape')
+            full_front = lambda n, m: [-1, 2] + sum(([-1, 0] for _ in range(n + 1)), []) + [-1, 2] + sum(([i, w] for i in range(n) for w in [2] + [0] * (m + 1) + [2]), [])
+            full_back = lambda n, m: sum(([-1, 1] for _ in range(n + 1)), []) + sum(([i, w] for i in range(n) for w in [1] * (m + 1) + [2]), [])
+            for nm, n, m in (('iter_rows', r, c), ('iter_cols', c, r)):
+                ops.append(op(nm, 0, rows=[full_front(n, m)]))
+                ops.append(op(nm, 0, rows=[full_back(n, m)]))
+                for _ in range(2 if tier == 'quick' else 6):
+                    ops.append(op(nm, 0, rows=[safe_nested_script(rng, 14, n)]))
+            for nm, n, m in (('iter_rows_mut', r, c), ('iter_cols_mut', c, r)):
+                nvec = n if r * c > 0 else 0
+                ops.append(op(nm, 0, 1, rows=[[-1, 2]]))
+                ops.append(op(nm, 0, 1, rows=[full_front(nvec, m)]))
+                ops.append(op(nm, 0, 2, rows=[full_back(nvec, m)]))
+                for _ in range(2 if tier == 'quick' else 6):
+                    ops.append(op(nm, 0, 0, rows=[safe_nested_script(rng, 14, nvec)]))
+            for nm, ext, ln in (('iter_nth_row', r, c), ('iter_nth_col', c, r)):
+                for n in list(range(ext + 2)) + [UMAX]:
+                    ops.append(op(nm, 0, n, rows=[[2] + [0] * (ln + 1) + [2]]))
+                    ops.append(op(nm, 0, n, rows=[[1] * (ln + 1) + [2]]))
+                    ops.append(op(nm, 0, n, rows=[rand_script(rng, ln + 3)]))
+                    ops.append(op(nm + '_mut', 0, n, 1, rows=[rand_script(rng, ln + 3)]))
+            cases.append(Case(f'C06-{r}x{c}o{order}', ops, 'tr'))
+    return cases
+
+
+def oracle_C06(case, hlines):
+    """direct oracle: every row/column view yields exactly the logical row/column, from either end, with exact lengths"""
+    out = []
+    ops = [o for o in case.ops if o[1] != 'fault']
+    prev = None
+    for i, (o, line) in enumerate(zip(ops, hlines)):
+        name = o[1]
+        if prev is not None and name.startswith('iter_') and ('row' in name or 'col' in name):
+            slot = parse_slot(prev, o[2][0])
+            if slot is not None:
+                rows = logical(slot)
+                cols = transpose_rows(rows, slot[2])
+                is_row = 'row' in name
+                vecs = rows if is_row else cols
+                obs = obs_of(line)
+                script = o[3][0] if o[3] else []
+                if name in ('iter_rows', 'iter_cols', 'iter_rows_mut', 'iter_cols_mut'):
+                    want = sim_nested(vecs, script)
+                    if obs != want:
+                        f = dict(kind='oracle', op_index=i, op=name, observed=obs, expected=want,
+                                 detail=f'{name} on {slot[1]}x{slot[2]} does not present the logical {"rows" if is_row else "columns"}')
+                        if name.endswith('_mut') and slot[1] * slot[2] == 0 and len(vecs) > 0 and obs == sim_nested([], script):
+                            f['known_key'] = 'mut-vector-iter-elementless'
+                        out.append(f)
+                else:
+                    n = o[2][1]
+                    want = sim_deque(vecs[n], script) if n < len(vecs) else 'Err(IndexOutOfBounds)'
+                    if obs != want:
+                        out.append(dict(kind='oracle', op_index=i, op=name, observed=obs, expected=want,
+                                        detail=f'{name}({n}) on {slot[1]}x{slot[2]}'))
+        prev = line
+    return out
+
+
+# ---------------------------------------------------------------------------------------------
+def gen_C11(rng, tier, changed):
+    cases = []
+    for n in range(0, 4):
+        for k in range(0, 4):
+            for m in range(0, 4):
+                for o1 in (0, 1):
+                    for o2 in (0, 1):
+                        sh = Shadow()
+                        base = build(sh, 0, n, k, o1, how='rowreshape') + build(sh, 1, k, m, o2, how='rowreshape')
+                        ops = list(base)
+                        ops += [op('clone', 2, 0), op('clone', 3, 1), op('multiply', 2, 2, 3)]
+                        ops += [op('op_mul', 3, 3, 0, 1), op('clone', 2, 0), op('op_mul', 1, 2, 2, 1)]
+                        ops += [op('clone', 3, 1), op('op_mul', 2, 3, 0, 3), op('clone', 2, 0), op('clone', 3, 1), op('mul_like', 2, 2, 3, 1)]
+                        ops += [op('op_mul', 0, 2, 0, 1)]
+                        cases.append(Case(f'C11-{n}.{k}.{m}o{o1}{o2}', ops, 'tr'))
+    # non-conformable operands
+    for i in range(30 if tier == 'quick' else 200):
+        sh = Shadow()
+        n, k, k2, m = (rng.randint(0, 3) for _ in range(4))
+        ops = build(sh, 0, n, k, rng.randrange(2), rng=rng) + build(sh, 1, k2, m, rng.randrange(2), rng=rng)
+        ops += [op('conform_mul', 0, 1), op('ensure_mul', 0, 1), op('op_mul', 3, 2, 0, 1), op('clone', 2, 0), op('clone', 3, 1), op('multiply', 2, 2, 3)]
+        cases.append(Case(f'C11-nc{i}', ops, 'tr'))
+    for i in range(10 if tier == 'quick' else 60):
+        sh = Shadow()
+        n, k, m = rng.randint(1, 6), rng.randint(1, 6), rng.randint(1, 6)
+        ops = build(sh, 0, n, k, rng.randrange(2), rng=rng) + build(sh, 1, k, m, rng.randrange(2), rng=rng)
+        ops += [op('op_mul', 3, 2, 0, 1), op('multiply', 3, 0, 1)]
+        cases.append(Case(f'C11-big{i}', ops, rng.choice(['tr', 'tr', 'zd'])))
+    return cases
+
+
+def dot_expr(lrow, rcol):
+    acc = None
+    for l, r in zip(lrow, rcol):
+        p = f'(B2 {l} {r})'
+        acc = p if acc is None else f'(B0 {acc} {p})'
+    return acc if acc is not None else 'D'
+
+
+def chain_expr(v):
+    acc = 'a0'
+    for x in reversed(v):
+        acc = f'(B30 {x} {acc})'
+    return acc
+
+
+def oracle_C11(case, hlines):
+    out = []
+    if case.elem != 'tr':
+        return out
+    ops = [o for o in case.ops if o[1] != 'fault']
+    prev = None
+    for i, (o, line) in enumerate(zip(ops, hlines)):
+        if prev is not None and o[1] in ('multiply', 'op_mul', 'mul_like'):
+            if o[1] == 'op_mul':
+                d, x, y = o[2][1], o[2][2], o[2][3]
+            else:
+                d, x, y = o[2][0], o[2][1], o[2][2]
+            a, b = parse_slot(prev, x), parse_slot(prev, y)
+            obs = obs_of(line)
+            if a and b:
+                if a[2] != b[1]:
+                    want_obs = 'Panic(ShapeNotConformable)' if o[1] == 'op_mul' else 'Err(ShapeNotConformable)'
+                    if obs != want_obs:
+                        out.append(dict(kind='oracle', op_index=i, op=o[1], observed=obs, expected=want_obs, detail='non-conformable operands'))
+                else:
+                    res = parse_slot(line, d)
+                    la, lb = logical(a), logical(b)
+                    colsb = transpose_rows(lb, b[2])
+                    if o[1] == 'mul_like':
+                        f = o[2][3]
+                        cellf = (lambda r, c: f'(B{10 + f} {chain_expr(r)} {chain_expr(c)})') if a[2] > 0 else (lambda r, c: 'D')
+                    else:
+                        cellf = dot_expr
+                    want = [[cellf(la[r], colsb[c]) for c in range(b[2])] for r in range(a[1])]
+                    if obs != '()' or res is None or logical(res) != want or res[0] != a[0]:
+                        out.append(dict(kind='oracle', op_index=i, op=o[1], detail=f'product of {a[1]}x{a[2]} and {b[1]}x{b[2]} is not the textbook product in lhs order',
+                                        observed=line.split(' ;; ')[1][:600], expected=str(want)[:600]))
+                    # operands passed by reference are unchanged
+                    if o[1] == 'op_mul':
+                        form = o[2][0]
+                        if form in (2, 3) and parse_slot(line, x) != a and d != x:
+                            out.append(dict(kind='oracle', op_index=i, op=o[1], detail='borrowed lhs changed', observed=line.split(' ;; ')[1][:300]))
+                        if form in (1, 3) and parse_slot(line, y) != b and d != y:
+                            out.append(dict(kind='oracle', op_index=i, op=o[1], detail='borrowed rhs changed', observed=line.split(' ;; ')[1][:300]))
+        prev = line
+    return out
+
+
+# ---------------------------------------------------------------------------------------------
+def gen_C12(rng, tier, changed):
+    cases = []
+    shapes = [(r, c) for r in range(0, 4) for c in range(0, 4)]
+    pairs = []
+    for (r, c) in shapes:
+        for (r2, c2) in {(r, c), (c, r), (r + 1, c), (r, c + 1), (max(0, r - 1), c), (0, 0), (r * c, 1)}:
+            pairs.append(((r, c), (r2, c2)))
+    for idx, ((r, c), (r2, c2)) in enumerate(pairs):
+        for o1 in (0, 1):
+            for o2 in (0, 1):
+                sh = Shadow()
+                ops = build(sh, 0, r, c, o1, how='rowreshape') + build(sh, 1, r2, c2, o2, how='rowreshape')
+                ops += [op('conform_ew', 0, 1), op('ensure_ew', 0, 1), op('ew', 2, 0, 1, 1)]
+                ops += [op('clone', 2, 0), op('ew_consume', 3, 2, 1, 2), op('clone', 2, 0), op('ew_assign', 2, 1, 0)]
+                for opk in range(5):
+                    if tier == 'quick' and (idx + opk) % 2:
+                        continue
+                    ops += [op('ew_named', opk, 0, 3, 0, 1), op('clone', 2, 0), op('ew_named', opk, 1, 3, 2, 1), op('clone', 2, 0), op('ew_named', opk, 2, 0, 2, 1)]
+                for opk in range(2):
+                    ops += [op('op_ew', opk, 3, 2, 0, 1)]
+                    ops += [op('clone', 2, 0), op('op_ew', opk, 1, 3, 2, 1)]
+                    ops += [op('clone', 3, 1), op('op_ew', opk, 2, 2, 0, 3)]
+                    ops += [op('clone', 2, 0), op('clone', 3, 1), op('op_ew', opk, 0, 2, 2, 3)]
+                    ops += [op('clone', 2, 0), op('op_ew_assign', opk, 1, 2, 1), op('clone', 3, 1), op('clone', 2, 0), op('op_ew_assign', opk, 0, 2, 3)]
+                cases.append(Case(f'C12-{r}x{c}o{o1}-{r2}x{c2}o{o2}', ops, 'tr'))
+    return cases
+
+
+def oracle_C12(case, hlines):
+    out = oracle_unchanged_on_error(case, hlines)
+    if case.elem != 'tr':
+        return out
+    ops = [o for o in case.ops if o[1] != 'fault']
+    prev = None
+    for i, (o, line) in enumerate(zip(ops, hlines)):
+        name = o[1]
+        if prev is not None and name in ('ew', 'ew_consume', 'ew_assign', 'ew_named', 'op_ew', 'op_ew_assign', 'conform_ew', 'ensure_ew'):
+            a_ = o[2]
+            if name in ('ew', 'ew_consume'):
+                d, x, y, code, panics = a_[0], a_[1], a_[2], 10 + a_[3], False
+            elif name == 'ew_assign':
+                d, x, y, code, panics = a_[0], a_[0], a_[1], 10 + a_[2], False
+            elif name == 'ew_named':
+                d, x, y, code, panics = (a_[2] if a_[1] != 2 else a_[3]), a_[3], a_[4], a_[0], False
+            elif name == 'op_ew':
+                d, x, y, code, panics = a_[2], a_[3], a_[4], a_[0], True
+            elif name == 'op_ew_assign':
+                d, x, y, code, panics = a_[2], a_[2], a_[3], a_[0], True
+            else:
+                d, x, y, code, panics = None, a_[0], a_[1], None, False
+            a, b = parse_slot(prev, x), parse_slot(prev, y)
+            obs = obs_of(line)
+            if not (a and b):
+                prev = line
+                continue
+            conf = (a[1], a[2]) == (b[1], b[2])
+            if name == 'conform_ew':
+                if obs != ('true' if conf else 'false'):
+                    out.append(dict(kind='oracle', op_index=i, op=name, observed=obs, expected=str(conf).lower(),
+                                    detail=f'conformability of {a[1]}x{a[2]} ({a[0]}) and {b[1]}x{b[2]} ({b[0]})'))
+            elif name == 'ensure_ew':
+                want = '()' if conf else 'Err(ShapeNotConformable)'
+                if obs != want:
+                    out.append(dict(kind='oracle', op_index=i, op=name, observed=obs, expected=want, detail='ensure conformable'))
+            elif not conf:
+                want = 'Panic(ShapeNotConformable)' if panics else 'Err(ShapeNotConformable)'
+                if obs != want:
+                    out.append(dict(kind='oracle', op_index=i, op=name, observed=obs, expected=want, detail='non-conformable shapes'))
+            else:
+                la, lb = logical(a), logical(b)
+                want = [[f'(B{code} {la[r][c]} {lb[r][c]})' for c in range(a[2])] for r in range(a[1])]
+                res = parse_slot(line, d)
+                if obs != '()' or res is None or logical(res) != want or res[0] != a[0]:
+                    out.append(dict(kind='oracle', op_index=i, op=name, detail='elementwise result is not op(lhs[r][c], rhs[r][c]) in lhs order',
+                                    observed=line.split(' ;; ')[1][:500], expected=str(want)[:500]))
+        prev = line
+    return out
+
+
+# ---------------------------------------------------------------------------------------------
+def gen_C15(rng, tier, changed):
+    cases = []
+    n = 160 if tier == 'quick' else 1500
+    for i in range(n):
+        sh = Shadow()
+        r, c = rng.randint(0, 4), rng.randint(0, 4)
+        ops = build(sh, 0, r, c, rng.randrange(2), rng=rng)
+        for _ in range(rng.randrange(4)):
+            nm = rng.choice(['transpose', 'switch_order', 'switch_order_wr', 'reshape'])
+            if nm == 'reshape':
+                size = sh.s[0][0] * sh.s[0][1]
+                divs = [k for k in range(1, size + 1) if size % k == 0] or [0]
+                k = rng.choice(divs)
+                o = op('reshape', 0, k, size // k if k else rng.randint(0, 3))
+            else:
+                o = op(nm, 0)
+            ops.append(o)
+            sh.apply(o)
+        size = sh.s[0][0] * sh.s[0][1]
+        scripts = [[0] * (size + 1) + [2], [1] * (size + 1), rand_script(rng, size + 2), [2, 0, 1, 2] * (size // 2 + 1)]
+        ops.append(op('iter_elements', 0, rows=[rng.choice(scripts)]))
+        ops.append(op('iter_elements_idx', 0, rows=[rng.choice(scripts)]))
+        ops.append(op('iter_elements_mut', 0, 1, rows=[rng.choice(scripts)]))
+        ops.append(op('iter_elements_mut_idx', 0, 2, rows=[rng.choice(scripts)]))
+        ops.append(op('par_iter_elements_idx', 0))
+        ops.append(op('par_iter_elements_mut_idx', 0, 1))
+        ops.append(op('clone', 1, 0))
+        ops.append(op('clone', 2, 0))
+        ops.append(op('clone', 3, 0))
+        ops.append(op('into_iter_elements', 1, rows=[rng.choice(scripts)]))
+        ops.append(op('into_iter_elements_idx', 2, rows=[rng.choice(scripts)]))
+        ops.append(op('into_par_iter_elements_idx', 3))
+        cases.append(Case(f'C15-{i}', ops, 'tr', threads=rng.choice([0, 2, 4])))
+    return cases
+
+
+def oracle_C15(case, hlines):
+    """direct oracle: element iterators follow memory order (= the dump, whose layout the harness's coherence
+    probe pins to row-by-row / column-by-column through get()), and every reported index addresses that very element"""
+    out = []
+    ops = [o for o in case.ops if o[1] != 'fault']
+    prev = None
+    for i, (o, line) in enumerate(zip(ops, hlines)):
+        name = o[1]
+        if prev is not None and 'iter_elements' in name:
+            slot = parse_slot(prev, o[2][0])
+            if slot:
+                obs = obs_of(line)
+                rows = logical(slot)
+                data = slot[3]
+                script = o[3][0] if o[3] else None
+                if name.endswith('_idx'):
+                    if slot[0] == 'R':
+                        items = [f'[{k // slot[2]},{k % slot[2]},{e}]' for k, e in enumerate(data)]
+                    else:
+                        items = [f'[{k % slot[1]},{k // slot[1]},{e}]' for k, e in enumerate(data)]
+                    for it in items:
+                        rr, cc, e = it[1:-1].split(',', 2)
+                        if rows[int(rr)][int(cc)] != e:
+                            out.append(dict(kind='oracle', op_index=i, op=name, detail='index does not address the element', observed=it))
+                else:
+                    items = list(data)
+                if name.startswith('par_') or name.startswith('into_par_'):
+                    want = '[' + ','.join(sorted(items)) + ']'
+                    got = '[' + ','.join(sorted(C.split_top(obs[1:-1]))) + ']'
+                else:
+                    want = sim_deque(items, script)
+                    got = obs
+                if got != want:
+                    out.append(dict(kind='oracle', op_index=i, op=name, observed=got[:400], expected=want[:400],
+                                    detail='element iteration is not memory order with matching indices'))
+        prev = line
+    return out
+
+
+# ---------------------------------------------------------------------------------------------
+def gen_C16(rng, tier, changed):
+    cases = []
+    sizes = [0, 1, 2, 3, 7, 16, 33, 100, 257, 1000, 4000] + ([20000, 50000] if tier != 'quick' else [9000])
+    threads = [1, 2, 3, 4, 8, 16, 32]
+    k = 0
+    for n in sizes:
+        for t in (threads if tier != 'quick' else rng.sample(threads, 3)):
+            for delay in ((0, 1, 2, 3) if tier != 'quick' else (rng.randrange(4),)):
+                order = rng.randrange(2)
+                sh = Shadow()
+                if n <= 16:
+                    r = rng.choice([d for d in range(1, n + 1) if n % d == 0] or [0])
+                    c = n // r if r else rng.randint(0, 3)
+                else:
+                    r = rng.choice([d for d in (1, 2, 4, 8, 16, 3, 5, 10) if n % d == 0] or [1])
+                    c = n // r
+                ops = build(sh, 0, r, c, order, how='rowreshape')
+                ops += [op('clone', 1, 0), op('par_apply', 0, 1), op('apply', 1, 1), op('eq', 0, 1)]
+                ops += [op('par_map_ref', 2, 0, 2), op('map_ref', 3, 1, 2), op('eq', 2, 3)]
+                ops += [op('par_iter_elements', 0), op('par_iter_elements_idx', 0), op('par_iter_elements_mut', 0, 0), op('par_iter_elements_mut_idx', 1, 0), op('eq', 0, 1)]
+                ops += [op('par_map', 2, 2, 0), op('map', 3, 3, 0), op('eq', 2, 3), op('into_par_iter_elements', 2), op('into_par_iter_elements_idx', 3)]
+                cases.append(Case(f'C16-{k}', ops, 'tr', threads=t, delay=delay))
+                k += 1
+    return cases
+
+
+def oracle_C16(case, hlines):
+    out = oracle_C15(case, hlines)
+    ops = [o for o in case.ops if o[1] != 'fault']
+    for i, (o, line) in enumerate(zip(ops, hlines)):
+        if o[1] == 'eq' and obs_of(line) != 'true':
+            out.append(dict(kind='oracle', op_index=i, op='eq', detail=f'parallel result differs from the sequential one (threads={case.threads}, delay={case.delay})',
+                            observed=obs_of(line), expected='true'))
+    return out
+
+
+# ---------------------------------------------------------------------------------------------
+def gen_C19(rng, tier, changed):
+    cases = []
+    k = 0
+    for nr in range(0, 5):
+        for nc in range(0, 5):
+            variants = [None]
+            for pos in range(nr):
+                for ln in (nc - 1, nc + 1, 0, nc + 2):
+                    if ln >= 0 and ln != nc:
+                        variants.append((pos, ln))
+            for var in variants:
+                sh = Shadow()
+                lens = [nc] * nr
+                if var:
+                    lens[var[0]] = var[1]
+                rows = [sh.fresh_vals(l) for l in lens]
+                ops = []
+                for kind in (0, 1, 2):
+                    ops.append(op('try_from', kind, kind, rows=rows))
+                ops.append(op('from_iter', 3, rows=rows))
+                if var is None and nc <= 4:
+                    for kind in (0, 1, 2):
+                        ops.append(op('from_arrays', kind, kind, nc, rows=rows))
+                    if 1 <= nr <= 3 and 1 <= nc <= 3:
+                        ops.append(op('macro', 3, 3, 0, 0, rows=rows))
+                cases.append(Case(f'C19-{k}', ops, rng.choice(['tr', 'tr', 'zd'])))
+                k += 1
+    # total-length coincidences: ragged rows whose lengths add up to nrows * ncols
+    for rows_l in ([2, 1, 3], [3, 1, 2, 2], [1, 2], [2, 2, 1, 3], [0, 1], [1, 0], [2, 3, 1], [1, 1, 0, 2]):
+        sh = Shadow()
+        rows = [sh.fresh_vals(l) for l in rows_l]
+        ops = [op('try_from', 0, 1, rows=rows), op('try_from', 1, 2, rows=rows), op('try_from', 2, 0, rows=rows), op('from_iter', 3, rows=rows)]
+        cases.append(Case(f'C19-co{k}', ops, 'tr'))
+        k += 1
+    for r in range(0, 4):
+        for c in range(0, 4):
+            sh = Shadow()
+            v = sh.fresh_vals(3)
+            ops = [op('with_value', 0, r, c, v[0]), op('with_default', 1, r, c), op('with_init', 2, r, c, 1), op('macro', 3, 1, r, c),
+                   op('from_row', 0, rows=[sh.fresh_vals(c)]), op('from_col', 1, rows=[sh.fresh_vals(r)]),
+                   op('macro', 2, 5, c, 0), op('macro', 3, 8, r, 0), op('macro', 0, 0, 0, 0), op('macro', 1, 4, 0, 0), op('macro', 2, 7, 0, 0),
+                   op('new', 0), op('default', 1), op('with_capacity', 2, r * c)]
+            if 1 <= c <= 3:
+                vals = sh.fresh_vals(c)
+                ops += [op('macro', 0, 2, r, 0, rows=[vals]), op('macro', 1, 6, 0, 0, rows=[vals]), op('macro', 2, 9, 0, 0, rows=[vals])]
+            cases.append(Case(f'C19-w{r}x{c}', ops, rng.choice(['tr', 'tr', 'zd'])))
+    return cases
+
+
+def oracle_C19(case, hlines):
+    out = []
+    if case.elem != 'tr':
+        return out
+    ops = [o for o in case.ops if o[1] != 'fault']
+    for i, (o, line) in enumerate(zip(ops, hlines)):
+        name, a_, rows = o[1], o[2], o[3]
+        obs = obs_of(line)
+        want_rows, want_obs = None, '()'
+        if name in ('try_from', 'from_iter', 'from_arrays'):
+            nc = len(rows[0]) if rows else 0
+            if name == 'from_arrays':
+                nc = a_[2]
+            ragged = any(len(r) != nc for r in rows)
+            if ragged:
+                want_obs = 'Err(LengthInconsistent)' if name == 'try_from' else 'Panic(LengthInconsistent)'
+            else:
+                want_rows = [[f'a{v}' for v in r] for r in rows]
+                if name == 'from_iter' and not rows:
+                    nc = 0
+                want_shape = (len(rows), nc)
+        elif name == 'with_value':
+            want_rows, want_shape = [[f'a{a_[3]}'] * a_[2] for _ in range(a_[1])], (a_[1], a_[2])
+        elif name == 'with_default':
+            want_rows, want_shape = [['D'] * a_[2] for _ in range(a_[1])], (a_[1], a_[2])
+        elif name == 'with_init':
+            want_rows, want_shape = [[f'(B{20 + a_[3]} a{r} a{c})' for c in range(a_[2])] for r in range(a_[1])], (a_[1], a_[2])
+        elif name == 'from_row':
+            want_rows, want_shape = [[f'a{v}' for v in (rows[0] if rows else [])]], (1, len(rows[0]) if rows else 0)
+        elif name == 'from_col':
+            want_rows, want_shape = [[f'a{v}'] for v in (rows[0] if rows else [])], (len(rows[0]) if rows else 0, 1)
+        else:
+            continue
+        if obs != want_obs:
+            out.append(dict(kind='oracle', op_index=i, op=name, observed=obs, expected=want_obs, detail='constructor outcome'))
+        elif want_rows is not None:
+            res = parse_slot(line, a_[0])
+            if res is None or logical(res) != want_rows or (res[1], res[2]) != want_shape:
+                out.append(dict(kind='oracle', op_index=i, op=name, observed=line.split(' ;; ')[1][:300], expected=str(want_rows)[:300],
+                                detail='constructed matrix is not the described one'))
+    return out
+
+
+# ---------------------------------------------------------------------------------------------
+RENDER_ATOMS = list(range(1000, 1014))
+
+
+def gen_C20(rng, tier, changed):
+    cases = []
+    shapes = [(r, c) for r in range(0, 4) for c in range(0, 4)] + [(1, 5), (5, 1)]
+    k = 0
+    for (r, c) in shapes:
+        pools = [RENDER_ATOMS, [1001, 1003, 1004, 1008, 1009, 1013, 5, 123456], [7, 42, 100000, 0, -3], [1000, 1001], [1000], [1002, 1012, 1010, 5]]
+        for pool_ in (pools if tier != 'quick' else rng.sample(pools, 3) + [pools[1]]):
+            vals = [rng.choice(pool_) for _ in range(r * c)]
+            rows = [vals[i * c:(i + 1) * c] for i in range(r)]
+            ops = [op('from_row', 0, rows=[vals]), op('reshape', 0, r, c), op('display', 0), op('debug', 0),
+                   op('switch_order', 0), op('display', 0), op('debug', 0), op('transpose', 0), op('display', 0), op('debug', 0)]
+            cases.append(Case(f'C20-{k}', ops, 'tr', meta=dict(rows=rows)))
+            k += 1
+    return cases
+
+
+def render_py(tok):
+    table = ["", "x", "ab\ncd", "é", "日本", "a\n", "\n", "a\r\nb", "wide-wide-wide", "  s", "\n\nq", "a\r", "q\nwww\ne", "\U0001f600"]
+    v = int(tok[1:])
+    return table[v - 1000] if 1000 <= v < 1000 + len(table) else str(v)
+
+
+def oracle_C20(case, hlines):
+    """direct oracle: for newline-free renderings one bracketed line per logical row, elements in column order,
+    all row lines equally wide; Display identical across storage orders"""
+    out = []
+    ops = [o for o in case.ops if o[1] != 'fault']
+    last_display = {}
+    prev = None
+    for i, (o, line) in enumerate(zip(ops, hlines)):
+        if o[1] in ('display', 'debug'):
+            obs = obs_of(line)
+            slot = parse_slot(line, o[2][0])
+            if not obs.startswith('S:'):
+                out.append(dict(kind='oracle', op_index=i, op=o[1], observed=obs, detail='formatting did not produce text (panic?)'))
+                prev = line
+                continue
+            text = ''.join(chr(int(x)) for x in obs[2:].split('.')) if len(obs) > 2 else ''
+            rows = logical(slot)
+            rend = [[render_py(e) for e in row] for row in rows]
+            key = (o[1], str(rows))
+            if o[1] == 'display':
+                if key in last_display and last_display[key] != text:
+                    out.append(dict(kind='oracle', op_index=i, op='display', detail='Display differs between storage orders for equal matrices',
+                                    observed=text, expected=last_display[key]))
+                last_display[key] = text
+            if slot[1] * slot[2] == 0:
+                if text != '[]':
+                    out.append(dict(kind='oracle', op_index=i, op=o[1], observed=text, expected='[]', detail='element-less matrix'))
+            elif all('\n' not in x and '\r' not in x for row in rend for x in row):
+                lines = text.split('\n')
+                body = lines[1:-1] if o[1] == 'display' else lines[2:-1]
+                ok = lines[0] == '[' and lines[-1] == ']' and len(body) == slot[1]
+                widths = set(len(l) for l in body)
+                ok = ok and len(widths) <= 1
+                for r_i, l in enumerate(body):
+                    if not ok:
+                        break
+                    if o[1] == 'display':
+                        ok = l.startswith('    [') and l.endswith(']')
+                        inner = l[5:-1]
+                    else:
+                        st = l.lstrip(' ')
+                        ok = l.startswith('    ') and st.startswith(str(r_i)) and l.endswith(']') and '[' in l
+                        inner = l[l.index('[') + 1:-1]
+                    # elements in column order: every rendering appears, in order
+                    pos = 0
+                    for c_i, x in enumerate(rend[r_i]):
+                        if o[1] == 'debug':
+                            label = str(flat_index(slot, r_i, c_i))
+                            j = inner.find(label + ' ', pos)
+                            ok = ok and j >= 0
+                            pos = j + len(label) + 1 if j >= 0 else pos
+                            x = '#' + x
+                        j = inner.find(x, pos) if x else pos
+                        ok = ok and j >= 0
+                        pos = j + len(x) if j >= 0 else pos
+                if not ok:
+                    out.append(dict(kind='oracle', op_index=i, op=o[1], observed=text, detail=f'row-line structure violated for {slot[1]}x{slot[2]} with single-line renderings'))
+        prev = line
+    return out
+
+
+def flat_index(slot, r, c):
+    return r * slot[2] + c if slot[0] == 'R' else c * slot[1] + r
+
+
+# ---------------------------------------------------------------------------------------------
+AGNOSTIC = ['get', 'index', 'iter_rows', 'iter_cols', 'iter_nth_row', 'iter_nth_col', 'swap', 'swap_rows', 'swap_cols', 'overwrite',
+            'transpose', 'ew', 'ew_named', 'op_ew', 'sc', 'multiply', 'op_mul', 'apply', 'map_ref', 'eq', 'display', 'clone', 'contains',
+            'conform_ew', 'conform_mul', 'neg_ref']
+
+
+def gen_C07(rng, tier, changed):
+    """metamorphic pairs: the same program of order-agnostic operations, once all row-major and once with arbitrary orders"""
+    cases = []
+    n = 120 if tier == 'quick' else 1200
+    for i in range(n):
+        sh = Shadow()
+        opsA, marks = [], []
+        for d in range(3):
+            r, c = rng.choice([(2, 3), (3, 2), (2, 2), (1, 3), (3, 1), (0, 2), (2, 0), (3, 3), (1, 1)])
+            if d == 1 and rng.random() < 0.6:
+                r, c = sh.s[0][0], sh.s[0][1]
+            if d == 2 and rng.random() < 0.5:
+                r, c = sh.s[0][1], rng.randint(0, 3)
+            opsA += build(sh, d, r, c, 0, how='arrays' if r <= 4 and c <= 4 else 'rowreshape')
+        for _ in range(rng.randint(4, 25)):
+            live = sh.live()
+            if not live:
+                break
+            s = rng.choice(live)
+            r, c, _o = sh.s[s]
+            others = [x for x in live if x != s]
+            nm = rng.choice(AGNOSTIC)
+            d = 3 if rng.random() < 0.5 else rng.randrange(4)
+            o = None
+            if nm in ('get', 'index'):
+                o = op(nm, s, rng.randrange(4), rng.randint(0, r), rng.randint(0, c))
+            elif nm in ('iter_rows', 'iter_cols'):
+                o = op(nm, s, rows=[safe_nested_script(rng, 10, 4)])
+            elif nm in ('iter_nth_row', 'iter_nth_col'):
+                o = op(nm, s, rng.randint(0, max(r, c)), rows=[rand_script(rng, 6)])
+            elif nm == 'swap':
+                o = op(nm, s, 0, rng.randint(0, r), rng.randint(0, c), 2, rng.randint(0, max(0, r - 1)), rng.randint(0, max(0, c - 1)))
+            elif nm in ('swap_rows', 'swap_cols'):
+                ext = r if nm == 'swap_rows' else c
+                o = op(nm, s, rng.randint(0, ext), rng.randint(0, max(0, ext - 1)))
+            elif nm == 'overwrite' and others:
+                o = op(nm, s, rng.choice(others))
+            elif nm in ('transpose',):
+                o = op(nm, s)
+            elif nm == 'ew' and others:
+                o = op(nm, d, s, rng.choice(others), rng.randrange(3))
+            elif nm == 'ew_named' and others:
+                o = op(nm, rng.randrange(5), 0, d, s, rng.choice(others))
+            elif nm == 'op_ew' and others:
+                o = op(nm, rng.randrange(2), 3, d, s, rng.choice(others))
+            elif nm == 'sc':
+                o = op(nm, d, s, sh.fresh_vals(1)[0], rng.randrange(3))
+            elif nm == 'multiply' and others:
+                t = rng.choice(others)
+                o = op('op_mul', 3, d, s, t)
+            elif nm == 'op_mul' and others:
+                o = op(nm, rng.randrange(4), d, s, rng.choice(others))
+            elif nm == 'apply':
+                o = op(nm, s, rng.randrange(3))
+            elif nm in ('map_ref', 'clone', 'neg_ref'):
+                o = op(nm, d, s, rng.randrange(3)) if nm == 'map_ref' else op(nm, d, s)
+            elif nm in ('eq', 'conform_ew', 'conform_mul') and others:
+                o = op(nm, s, rng.choice(others))
+            elif nm == 'display':
+                o = op(nm, s)
+            elif nm == 'contains':
+                o = op(nm, s, rng.randint(0, sh.counter))
+            if o is None:
+                continue
+            opsA.append(o)
+            sh.apply(o)
+        # variant B: switch_order inserted at arbitrary points on arbitrary live slots
+        shB = Shadow()
+        opsB, mapping = [], []
+        for idx, o in enumerate(opsA):
+            opsB.append(o)
+            shB.apply(o)
+            mapping.append(len(opsB) - 1)
+            for s in shB.live():
+                if rng.random() < 0.25:
+                    w = op('switch_order', s)
+                    opsB.append(w)
+                    shB.apply(w)
+        cases.append(Case(f'C07-{i}A', opsA, 'tr'))
+        cases.append(Case(f'C07-{i}B', opsB, 'tr', meta=dict(pair=f'C07-{i}A', mapping=mapping)))
+    # equality proper: equal / unequal-in-one-element / transposed / differently shaped operands in all order combinations
+    k = 0
+    for (r, c) in [(r, c) for r in range(0, 4) for c in range(0, 4)] + [(1, 5), (4, 2)]:
+        for o1 in (0, 1):
+            for o2 in (0, 1):
+                sh = Shadow()
+                ops = build(sh, 0, r, c, 0, how='rowreshape')
+                ops += [op('clone', 1, 0), op('clone', 2, 0), op('clone', 3, 0)]
+                if o1:
+                    ops.append(op('switch_order', 0))
+                if o2:
+                    ops += [op('switch_order', 1), op('switch_order', 3)]
+                ops += [op('eq', 0, 1), op('eq', 1, 0), op('eq', 0, 0), op('eq', 1, 2), op('eq', 0, 2)]
+                if r * c > 0:
+                    i, j = rng.randrange(r), rng.randrange(c)
+                    ops += [op('set', 3, 0, i, j, 99999), op('eq', 0, 3), op('eq', 3, 0), op('eq', 3, 3)]
+                    # same multiset of values, different positions
+                    if r * c > 1:
+                        ops += [op('clone', 3, 1), op('swap', 3, 0, 0, 0, 0, r - 1, c - 1), op('eq', 0, 3), op('eq', 3, 1)]
+                ops += [op('transpose', 2), op('eq', 0, 2), op('eq', 2, 1), op('switch_order_wr', 2), op('eq', 0, 2), op('eq', 2, 0)]
+                ops += [op('reshape', 1, c, r), op('eq', 0, 1), op('eq', 1, 0)]
+                cases.append(Case(f'C07-eq{k}', ops, 'tr'))
+                k += 1
+    return cases
+
+
+def oracle_C07(case, hlines):
+    """direct oracle for ==: true exactly when the logical shapes agree and all logical elements are pairwise equal"""
+    out = []
+    ops = [o for o in case.ops if o[1] != 'fault']
+    for i, (o, line) in enumerate(zip(ops, hlines)):
+        if o[1] == 'eq':
+            a, b = parse_slot(line, o[2][0]), parse_slot(line, o[2][1])
+            if a and b:
+                want = (a[1], a[2]) == (b[1], b[2]) and logical(a) == logical(b)
+                if obs_of(line) != str(want).lower():
+                    out.append(dict(kind='oracle', op_index=i, op='eq', observed=obs_of(line), expected=str(want).lower(),
+                                    detail=f'== of {a[1]}x{a[2]} ({a[0]}) and {b[1]}x{b[2]} ({b[0]})'))
+    return out
+
+
+def post_C07(cases, hres):
+    """pairwise comparison of the two runs: same observations, same logical contents, result order = lhs order"""
+    out = []
+    byid = {c.id: c for c in cases}
+    for c in cases:
+        if 'pair' not in c.meta:
+            continue
+        A = byid[c.meta['pair']]
+        la = [l for l in hres.get(A.id, []) if not (l == 'E' or l.startswith('E '))]
+        lb = [l for l in hres.get(c.id, []) if not (l == 'E' or l.startswith('E '))]
+        for ia, ib in enumerate(c.meta['mapping']):
+            if ia >= len(la) or ib >= len(lb):
+                break
+            oa, ob = obs_of(la[ia]), obs_of(lb[ib])
+            name = A.ops[ia][1]
+            f = None
+            if oa != ob:
+                f = dict(kind='oracle', op_index=ib, op=name, observed=ob[:400], expected=oa[:400],
+                         detail='observation depends on the storage order of the operands')
+            else:
+                for k in range(4):
+                    sa, sb = parse_slot(la[ia], k), parse_slot(lb[ib], k)
+                    if (sa is None) != (sb is None) or (sa and (logical(sa) != logical(sb) or (sa[1], sa[2]) != (sb[1], sb[2]))):
+                        f = dict(kind='oracle', op_index=ib, op=name, observed=lb[ib].split(' ;; ')[1][:400], expected=la[ia].split(' ;; ')[1][:400],
+                                 detail=f'logical contents of slot {k} depend on the storage order of the operands')
+                        break
+            if f is None and name in ('ew', 'ew_named', 'op_ew', 'sc', 'op_mul', 'map_ref', 'neg_ref', 'clone') and ob == '()' and ib > 0:
+                o = c.ops[ib]
+                a_ = o[2]
+                d, x = {'ew': (a_[0], a_[1]), 'sc': (a_[0], a_[1]), 'map_ref': (a_[0], a_[1]), 'neg_ref': (a_[0], a_[1]), 'clone': (a_[0], a_[1]),
+                        'ew_named': (a_[2], a_[3]) if name == 'ew_named' else None, 'op_ew': (a_[2], a_[3]) if name == 'op_ew' else None,
+                        'op_mul': (a_[1], a_[2]) if name == 'op_mul' else None}[name]
+                lhs_before = parse_slot(lb[ib - 1], x)
+                res = parse_slot(lb[ib], d)
+                if lhs_before and res and res[0] != lhs_before[0]:
+                    f = dict(kind='oracle', op_index=ib, op=name, observed=res[0], expected=lhs_before[0], detail='result does not take the storage order of the left operand')
+            if f:
+                out.append((c, f))
+                break
+    return out
+
+
+SUITES.update({
+    'C06': dict(gen=gen_C06, oracle=oracle_C06, files=['src/iter.rs', 'src/iter/iter_mut.rs'],
+                rule='every shape <= 4x4 plus shapes with exactly one zero dimension, both orders; outer and inner iterators drained from the front, from the back and mixed; every n in 0..=extent+1 and usize::MAX'),
+    'C07': dict(gen=gen_C07, post=post_C07, oracle=oracle_C07, files=['src'],
+                rule='random programs of order-agnostic operations run twice: all row-major, and with switch_order inserted at arbitrary points; pairwise comparison of observations and logical contents'),
+    'C11': dict(gen=gen_C11, oracle=oracle_C11, files=['src/arithmetic/mul.rs', 'src/arithmetic.rs'],
+                rule='all (n,k,m) in 0..3 cubed x four order combinations x multiply, four operator forms and multiplication_like_operation, symbolic elements (factor order and association observable)'),
+    'C12': dict(gen=gen_C12, oracle=oracle_C12, files=['src/arithmetic.rs', 'src/arithmetic/add.rs', 'src/arithmetic/sub.rs', 'src/arithmetic/mul.rs', 'src/arithmetic/div.rs', 'src/arithmetic/rem.rs'],
+                rule='shape pairs (equal, transposed, one dimension off, degenerate) <= 3x3 x four order combinations x three ownership variants x named methods and operator forms'),
+    'C15': dict(gen=gen_C15, oracle=oracle_C15, files=['src/iter.rs', 'src/index.rs', 'src/parallel.rs'],
+                rule='shapes <= 4x4 after random transpose / reshape / switch-without-rearrangement prefixes; the six sequential element iterators from front, back and mixed, and the parallel with_index variants'),
+    'C16': dict(gen=gen_C16, oracle=oracle_C16, files=['src/parallel.rs'],
+                rule='thread pools of 1..32 threads x sizes 0..50000 x per-element delay patterns; every parallel helper against its sequential counterpart on a clone'),
+    'C19': dict(gen=gen_C19, oracle=oracle_C19, files=['src/convert.rs', 'src/construct.rs', 'src/macros.rs'],
+                rule='row counts 0..4 x row lengths 0..4 with one odd row at every position (shorter, longer, empty), length-coincidence cases, all conversions, constructors and macro arms'),
+    'C20': dict(gen=gen_C20, oracle=oracle_C20, files=['src/fmt.rs'],
+                rule='shapes <= 3x3 plus degenerate and 1x5/5x1, both orders, renderings from a pool (empty, ASCII, multi-byte, multi-line, CRLF, trailing newline)'),
+})
